@@ -112,6 +112,9 @@ def TICKS_PER_SECOND : Nat := 1000
 def ACK_TIMEOUT_TICKS : Nat := 2000          -- coap_calc_timeout(session, r = 0)
 def MAX_RETRANSMIT : Nat := 4
 
+/-- S: the number of holders of a session (application references, observer entries, async entries, queued messages) -/
+def St.holds (st : St) (sid : Nat) : Nat := st.holders.countP (fun h => h.sid == sid)
+
 /-! ## primitives (each one is a C statement group; all total, all guarded exactly as the C) -/
 
 def St.lookup (st : St) (p : Peer) : Option Sess := st.sessions.find? (fun s => s.peer = p)
